@@ -268,6 +268,8 @@ pub fn eval_date(t: &u64) -> Outcome {
     let mut o = Outcome::default();
     let mut cfg = CCfg::basic(0);
     cfg.ctime = Some(*t);
+    // one instant in four is configured twice (another instant first), through the Metadata setter or the builder alias
+    cfg.reconfig = [0, 0, 0, 1, 0, 0, 0, 4][(*t % 8) as usize];
     match mux(&cfg, &tiny_ops(false)) {
         Ok((_, m)) => check_date(&mut o, &m, *t),
         Err(Some(p)) => o.aborted_by_panic = Some(p),
@@ -400,6 +402,7 @@ pub fn eval_lang(c: &(u16, bool)) -> Outcome {
         cfg.audio = 1;
     }
     cfg.lang = Some(String::from_utf8_lossy(&code).to_string());
+    cfg.reconfig = [0, 0, 1, 0, 4, 0, 2, 0][(idx % 8) as usize];
     match mux(&cfg, &tiny_ops(audio)) {
         Ok((_, m)) => {
             check_lang(&mut o, &m, &code, "code");
